@@ -175,3 +175,36 @@ def aead_campaign_replay(job, vals, seed, root):
     if r.get("violation"):
         return {"reproduced": True, "cmd": r.get("cmd"), "text": r["text"]}
     return {"reproduced": False, "cmd": r.get("cmd"), "text": r["text"]}
+
+
+def trng_campaign(tier, seed, root):
+    d = os.path.join(root, "native")
+    os.makedirs(d, exist_ok=True)
+    src = os.path.join(REPO, "src/random/tinyjambu-trng-dev-random.c")
+    objs = []
+    for nm, defs in (("getrandom", ["-DHAVE_GETRANDOM", "-DHAVE_SYS_RANDOM_H", "-Dgetrandom=tjv_getrandom"]),
+                     ("getentropy", ["-DHAVE_GETENTROPY", "-DHAVE_SYS_RANDOM_H", "-Dgetentropy=tjv_getentropy"]),
+                     ("syscall", ["-DHAVE_SYS_SYSCALL_H", "-Dsyscall=tjv_syscall"])):
+        o = os.path.join(d, "trng_%s.o" % nm)
+        cmd = ["gcc", "-O1", "-w", "-c", "-I" + os.path.join(REPO, "src"), "-Dtinyjambu_trng_generate=trng_" + nm] + defs + [src, "-o", o]
+        rc, out, _ = P.run(cmd, d, 120)
+        if rc != 0:
+            raise ToolError("native build of the %s TRNG variant failed: %s" % (nm, out[-500:]))
+        objs.append(o)
+    exe = os.path.join(d, "diff_trng")
+    rc, out, _ = P.run(["gcc", "-O1", "-w", os.path.join(VERIF, "native/diff_trng.c")] + objs + ["-o", exe], d, 120)
+    if rc != 0:
+        raise ToolError("native build of diff_trng failed: %s" % out[-500:])
+    rc, out, secs = P.run([exe], d, 120)
+    if rc == 1:
+        return {"violation": True, "name": "native.diff_trng", "obligation": "system entropy source under fault injection", "text": "\n".join(_fail_lines(out)),
+                "cmd": "native/diff_trng", "reproduced": True}
+    if rc != 0:
+        return {"violation": True, "name": "native.diff_trng", "obligation": "system entropy source terminates under fault injection",
+                "text": "abnormal termination / hang (rc %s)" % rc, "cmd": "native/diff_trng", "reproduced": True}
+    return {"text": "native fault injection (fallback/replay, not proof): " + out.strip().split("\n")[-1], "cmd": "native/diff_trng"}
+
+
+def trng_replay(job, vals, seed, root):
+    r = trng_campaign("quick", seed, root)
+    return {"reproduced": bool(r.get("violation")), "cmd": r.get("cmd"), "text": r["text"]}
